@@ -219,3 +219,13 @@ func init() {
 	addMutant(mutant{Name: "fs/create-drops-max-size-check", Fire: []string{"ORD-08"},
 		Edits: []edit{{"fs/fs.go", "		if size > math.MaxInt32 {\n			return nil, fmt.Errorf(\"maximum file size is %d bytes\", math.MaxInt32)\n		}\n", "		_ = fmt.Sprint(math.MaxInt32)\n"}}})
 }
+
+func init() {
+	// obligations added after seeded round 6
+	addMutant(mutant{Name: "verifier/skipped-range-only-with-written-sum", Fire: []string{"FD-11"},
+		Edits: []edit{{"verifier/verifier.go", "		if lastCheckPointIdx > 0 && lastCheckPointIdx != report.Range.Start {", "		if lastCheckPointIdx > 0 && report.WrittenSum != 0 && lastCheckPointIdx != report.Range.Start {"}}})
+	addMutant(mutant{Name: "verifier/skipped-range-never-set", Fire: []string{"FD-11"},
+		Edits: []edit{{"verifier/verifier.go", "		if lastCheckPointIdx > 0 && lastCheckPointIdx != report.Range.Start {", "		if lastCheckPointIdx > 0 && lastCheckPointIdx > report.Range.Start {"}}})
+	addMutant(mutant{Name: "migrate/copylogs-single-entry-is-empty", Fire: []string{"FD-05"},
+		Edits: []edit{{"migrate/migrate.go", "	if last == 0 {\n		// Empty source log", "	if last <= first {\n		// Empty source log"}}})
+}
